@@ -179,9 +179,9 @@ var.setParseAction(VarExpr)
 regexExpr = var + tilde + quotedString
 regexExpr.setParseAction(RegexExpr)
 
-varQuotedString = quotedString
+varQuotedString = quotedString.copy()
 varQuotedString.setParseAction(ConstantString)
-eqExpr = var + eq + (var | quotedString)
+eqExpr = var + eq + (var | varQuotedString)
 eqExpr.setParseAction(EqExpr)
 
 stringList = quotedString + pp.ZeroOrMore(comma + quotedString)
